@@ -1493,6 +1493,15 @@ class ForAll(BinaryOperator):
                     yield_when_false: bool = False) -> Iterable[Dict[int, HashedValue]]:
         sources = sources or {}
 
+        if yield_when_false:
+            # Every assignment of the other variables gets a row of its own (true or false), they are enumerated first.
+            unbound = [v.value for v in self.condition._unique_variables_
+                       if v.id_ in self.condition_unique_variable_ids and v.id_ not in sources]
+            if unbound:
+                for binding in unbound[0]._evaluate__(sources):
+                    yield from self._evaluate__({**sources, **binding}, yield_when_false=True)
+                return
+
         # Always reset per evaluation
         self.solution_set = []
 
@@ -1529,10 +1538,16 @@ class ForAll(BinaryOperator):
                 break
 
         # Yield the remaining bindings (non-universal) merged with the incoming sources
+        self._is_false_ = False
         for sol in self.solution_set or []:
             out = copy(sol)
             out.update(sources)
             yield out
+        if not self.solution_set and yield_when_false and all(i in sources for i in self.condition_unique_variable_ids):
+            # The statement does not hold for the given values of the other variables: that is a false row where false
+            # rows are asked for (else-if and the branches of a rule tree continue from it).
+            self._is_false_ = True
+            yield copy(sources)
 
 
 def not_contains(a, b):
@@ -1886,6 +1901,8 @@ class ElseIf(OR):
                     yield left_value
             # If left produced no values at all, evaluate right against sources
             if not any_left:
+                # no value at all is not a satisfied left branch, whatever an earlier row left in its flag
+                self.left._is_false_ = True
                 right_prev = self.right._eval_parent_
                 self.right._eval_parent_ = self
                 try:
